@@ -89,7 +89,10 @@ def run(ctx):
     # next-service functions take the minimum: connected folds ping timeout, ack heap, next ping, queue
     nc = ctx.fn('ProtocolState::get_next_service_timepoint_connected')
     folds = [c for c in nc.calls() if c.nfn.endswith('fold_optional_timepoint_min') or c.nfn.endswith('fold_timepoint')]
-    ctx.ob(len(folds) >= 4, 'connected next-service time folds (min) its four sources', 'fold-count', loc=nc.loc())
+    srcs = prims.self_fields_read(F, nc, 1, PS)
+    qcall = [c for c in nc.calls() if c.nfn.endswith('get_next_service_timepoint_protocol_queue')]
+    ctx.ob(len(folds) >= 2 and {'ping_timeout_timepoint', 'operation_ack_timeouts', 'next_ping_timepoint'} <= srcs and len(qcall) == 1,
+           'connected next-service time is a fold (min) over its four sources: PINGRESP deadline, ack-timeout heap, next ping, queue readiness (reads %s)' % sorted(srcs & {'ping_timeout_timepoint', 'operation_ack_timeouts', 'next_ping_timepoint'}), 'fold-count', loc=nc.loc())
     for nm in ('fold_timepoint', 'fold_optional_timepoint_min'):
         fv = ctx.fn('protocol::' + nm)
         keeps = [b for b, e in prims.ret_variants(fv) if show(e) in ('base', '*base')] or [b for b, e in prims.ret_variants(fv)]
